@@ -19,9 +19,10 @@ type Val struct {
 
 // State is a symbolic program state on one path set.
 type State struct {
-	env  map[string]*T
-	pc   *T
-	dead bool
+	env    map[string]*T
+	pc     *T
+	dead   bool
+	scopes map[int]bool // loop-body instances this state has passed through (lineage)
 }
 
 func (s *State) clone() *State {
@@ -29,7 +30,22 @@ func (s *State) clone() *State {
 	for k, v := range s.env {
 		n.env[k] = v
 	}
+	if len(s.scopes) > 0 {
+		n.scopes = make(map[int]bool, len(s.scopes))
+		for k := range s.scopes {
+			n.scopes[k] = true
+		}
+	}
 	return n
+}
+
+func scopeList(m map[int]bool) []int {
+	var out []int
+	for k := range m {
+		out = append(out, k)
+	}
+	sort.Ints(out)
+	return out
 }
 
 // Obl is a proof obligation.
@@ -41,6 +57,7 @@ type Obl struct {
 	Goal   *T
 	NFacts int
 	Func   string
+	Scopes map[int]bool
 	FuncKey string
 	// filled by solver
 	Result  string
@@ -107,6 +124,8 @@ type Exec struct {
 	decls     map[string]string
 	declOrder []string
 	facts     []*T
+	factScopes [][]int // per fact: loop-body instances it was assumed in
+	nScope    int
 	obls      []*Obl
 	nfresh    int
 	st        *State
@@ -137,6 +156,8 @@ type Exec struct {
 	libUsed    map[string]bool
 	heapSort   map[string]Sort
 	warnings   map[string]bool
+	mkSeen     map[string]int
+	factTag    map[int]string
 	lemmasUsed map[string]bool
 	untouched  map[*State]bool // branch states whose path condition is still the branch condition (no early exit inside)
 	code       []*codeCtx
@@ -171,7 +192,7 @@ func newExec(prog *Program, pkg *packages.Package, fn *types.Func, fc *FuncContr
 		boxed: map[types.Object]bool{}, noSR: map[types.Object]bool{}, closures: map[string]*closure{},
 		builders: map[string]bool{}, dynType: map[string]types.Type{},
 		strLits: map[string]*T{}, unmodelled: map[string]bool{}, stores: map[string]bool{},
-		assumptions: map[string]bool{}, libUsed: map[string]bool{}, heapSort: map[string]Sort{}, untouched: map[*State]bool{}, bindsUsed: map[*Bind]bool{}, callsitesUsed: map[*CallsiteClause]bool{}, warnings: map[string]bool{}, lemmasUsed: map[string]bool{},
+		assumptions: map[string]bool{}, libUsed: map[string]bool{}, heapSort: map[string]Sort{}, untouched: map[*State]bool{}, bindsUsed: map[*Bind]bool{}, callsitesUsed: map[*CallsiteClause]bool{}, warnings: map[string]bool{}, mkSeen: map[string]int{}, lemmasUsed: map[string]bool{},
 	}
 	ex.st = &State{env: map[string]*T{}, pc: True}
 	for _, n := range []string{"errIs", "dyntype", "ifaceI", "ifaceS", "ifaceO", "memB", "memI", "memS", "memO", "wfS", "bytesEq", "atB", "atI", "atS", "atO", "cid", "catS"} {
@@ -236,6 +257,7 @@ func (ex *Exec) rawFact(t *T) {
 		return
 	}
 	ex.facts = append(ex.facts, t)
+	ex.factScopes = append(ex.factScopes, scopeList(ex.st.scopes))
 }
 
 // assume adds a fact under the current path condition.
@@ -244,6 +266,7 @@ func (ex *Exec) assume(t *T) {
 		return
 	}
 	ex.facts = append(ex.facts, Imp(ex.st.pc, t))
+	ex.factScopes = append(ex.factScopes, scopeList(ex.st.scopes))
 }
 
 func (ex *Exec) posString(p token.Pos) string {
@@ -289,7 +312,7 @@ func (ex *Exec) assert(kind, label string, goal *T) {
 	if n := ex.oblCount[base]; n > 1 {
 		name = fmt.Sprintf("%s#%d", base, n)
 	}
-	o := &Obl{Name: name, Kind: kind, Pos: ex.posString(ex.curPos), PC: ex.st.pc, Goal: goal, NFacts: len(ex.facts), Func: ex.name}
+	o := &Obl{Name: name, Kind: kind, Pos: ex.posString(ex.curPos), PC: ex.st.pc, Goal: goal, NFacts: len(ex.facts), Func: ex.name, Scopes: ex.st.scopes}
 	ex.obls = append(ex.obls, o)
 	ex.assume(goal)
 }
@@ -474,6 +497,57 @@ func (ex *Exec) vfield(h *T, st types.Type, f *types.Var) *T {
 	return App(name, s, h)
 }
 
+// mkStruct builds the value of struct type t from its field values. Struct values are constructor terms:
+// V.T.f(mk.T(x1..xn)) = xi and mk.T(V.T.f1(h)..V.T.fn(h)) = h, so equal fields mean equal values.
+func (ex *Exec) mkStruct(t types.Type, fields []*T) *T {
+	st := structOf(t)
+	name := "mk." + structName(t)
+	if _, ok := ex.decls[name]; !ok {
+		var sorts []Sort
+		var bvs []string
+		var xs []*T
+		for i := 0; i < st.NumFields(); i++ {
+			s := sortOf(st.Field(i).Type())
+			sorts = append(sorts, s)
+			bv := fmt.Sprintf("x%c%d", "ios"[map[Sort]int{SInt: 0, SBool: 1, SSlice: 2}[s]], i)
+			if s != SInt {
+				bvs = append(bvs, bv+":"+string(s))
+			} else {
+				bvs = append(bvs, bv)
+			}
+			xs = append(xs, Const(bv, s))
+		}
+		ex.declare(name, sorts, SInt)
+		if st.NumFields() > 0 {
+			app := App(name, SInt, xs...)
+			var projs, guards []*T
+			for i := 0; i < st.NumFields(); i++ {
+				projs = append(projs, Eq(ex.vfield(app, t, st.Field(i)), xs[i]))
+				guards = append(guards, ex.typeFact(st.Field(i).Type(), xs[i]))
+			}
+			// the constructor is only meaningful on well-typed field values (V.* carry global range axioms)
+			ex.declAxiom(name+"$proj", Forall(bvs, Imp(And(guards...), And(projs...)), app))
+		}
+	}
+	app := App(name, SInt, fields...)
+	// program values are well typed: state the projections of this particular value directly (ground facts)
+	if pos, ok := ex.mkSeen[app.str]; !ok || pos >= len(ex.facts) || ex.factTag[pos] != app.str {
+		if st.NumFields() > 0 {
+			ex.mkSeen[app.str] = len(ex.facts)
+			if ex.factTag == nil {
+				ex.factTag = map[int]string{}
+			}
+			ex.factTag[len(ex.facts)] = app.str
+			var ps []*T
+			for i := 0; i < st.NumFields(); i++ {
+				ps = append(ps, Eq(ex.vfield(app, t, st.Field(i)), fields[i]))
+			}
+			ex.rawFact(And(ps...))
+		}
+	}
+	return app
+}
+
 func (ex *Exec) declAxiom(name string, ax *T) {
 	if _, ok := ex.decls[name]; ok {
 		return
@@ -631,10 +705,17 @@ func (ex *Exec) zeroValue(t types.Type) *T {
 	case *types.Slice:
 		return NilSlice
 	case *types.Struct:
-		h := ex.fresh("zero."+structName(t), SInt)
+		var fs []*T
 		for i := 0; i < u.NumFields(); i++ {
-			f := u.Field(i)
-			ex.rawFact(Eq(ex.vfield(h, t, f), ex.zeroValue(f.Type())))
+			fs = append(fs, ex.zeroValue(u.Field(i).Type()))
+		}
+		if u.NumFields() == 0 {
+			return I(0)
+		}
+		h := ex.mkStruct(t, fs)
+		if types.TypeString(t, nil) == "time.Time" {
+			ex.declare("G.tzero", []Sort{SInt}, SBool)
+			ex.rawFact(App("G.tzero", SBool, h))
 		}
 		return h
 	case *types.Array:
@@ -774,6 +855,12 @@ func (ex *Exec) merge(states []*State) *State {
 	var pcs []*T
 	for _, s := range live {
 		pcs = append(pcs, s.pc)
+		for k := range s.scopes {
+			if out.scopes == nil {
+				out.scopes = map[int]bool{}
+			}
+			out.scopes[k] = true
+		}
 	}
 	or := Or(pcs...)
 	if len(or.str) > 150 {
